@@ -83,9 +83,11 @@ def sharedHandler : Handler SS where
     | Option.none => ["prop shared=ok"]
     | some srcs =>
       if srcs.eraseDups.length ≤ 1 then ["prop shared=ok"]
-      else if s.reportsBeforeLastAttach > StatusTable.ringCap then
+      -- the recorded finding is exactly the divergence the ring truncation explains: the implementation ends where the
+      -- model (whose ring has the regenerated capacity) says it ends; any other divergence is a different violation
+      else if s.reportsBeforeLastAttach > StatusTable.ringCap && srcs == s.w.sources.map (fun x => toString x.toNat) then
         [s!"prop shared=FAIL sig=C11/sharedcomponent/ring-overflow-after-sticky sources={srcs}"]
-      else [s!"prop shared=FAIL sig=C11/sharedcomponent/divergence-within-ring sources={srcs}"]
+      else [s!"prop shared=FAIL sig=C11/sharedcomponent/instances-diverge-not-explained-by-ring-truncation sources={srcs} model={s.w.sources.map (fun x => x.toNat)}"]
 
 def parseCSV (s : String) : Option (List St) :=
   if s = "-" then some [] else (s.splitOn ",").mapM (fun t => t.toNat?.bind St.ofNat?)
